@@ -598,6 +598,24 @@ func c05Run(l *Lab, rep *Report, w *c05World) {
 			if o.Reached {
 				rep.Violate("C05/handler-reached-without-confirmed-credentials/"+name+"/openid-session-cookie", fmt.Sprintf("mechanisms %v: %s with the cookie of an OpenID session and no Authorization header reached the handler (status %d)", w.mech, m, o.Status), nil)
 			}
+			// ... nor for credentials the backend refuses
+			for _, c := range creds {
+				if c.valid || c.dontcare || c.scheme == "" || !has(w.mech, c.scheme) || strings.HasPrefix(c.name, "two headers") || c.gen != nil {
+					continue
+				}
+				out := w.c05Request(m, append(Hdr{sess}, c.hdr...), c.pre)
+				if out.T != nil {
+					out.T.Close()
+				}
+				if out.Err != nil {
+					continue // the NTLM pre-exchange was refused: that is the outcome
+				}
+				rep.Eval(HashStr(name, "openid-session+refused-credentials", m, c.name, out.Status, out.Reached))
+				rep.Count("requests_with_openid_session_and_refused_credentials", 1)
+				if out.Reached {
+					rep.Violate("C05/handler-reached-without-confirmed-credentials/"+name+"/openid-session-cookie", fmt.Sprintf("mechanisms %v: %s with %q and the cookie of an OpenID session reached the handler (status %d)", w.mech, m, c.name, out.Status), map[string]any{"credentials": c.name, "method": m})
+				}
+			}
 			for _, c := range creds {
 				if !c.valid || c.dontcare || c.user == "" || !has(w.mech, c.scheme) || strings.HasPrefix(c.name, "two headers") {
 					continue
